@@ -409,6 +409,15 @@ def _gen_steps():
                 continue
             src = _u(st)
             if "COLLECTED_TASKS" in src and "parse_collected_tasks_with_task_marker" in src:
+                # what the generator defined is TAKEN OUT of COLLECTED_TASKS (`.pop`), so that it is not collected again by
+                # the next generator of the module
+                branches, node = [], st
+                while isinstance(node, ast.If):
+                    branches.append(node.body)
+                    node = node.orelse[0] if len(node.orelse) == 1 and isinstance(node.orelse[0], ast.If) else None
+                for b in branches:
+                    if not any(isinstance(x, ast.Assign) and _u(x.value).startswith("COLLECTED_TASKS.pop(") for x in b):
+                        raise _err(f"{where}: the defined tasks are not popped from COLLECTED_TASKS")
                 # the chain ends in `else: raise RuntimeError(...)` iff a generator that defined nothing fails
                 node, raises = st, False
                 while True:
